@@ -98,9 +98,26 @@ def check_behaviour(run, k, beh, ulaw, tmp, rng):
     if got.shape != want.shape or got.dtype != want.dtype or not np.array_equal(got, want):
         run.violation({"kind": "shorten_decode_differs_from_encoded_samples", "hdr": hdr, "commands": beh["note"],
                        "got_shape": list(got.shape), "want_shape": list(want.shape), "got_dtype": str(got.dtype),
-                       "first_diff": int(np.argwhere(got.reshape(-1) != want.reshape(-1))[0][0]) if got.shape == want.shape else None,
+                       "first_diff": int(np.argwhere(got.reshape(-1) != want.reshape(-1))[0][0]) if got.shape == want.shape and np.any(got != want) else None,
                        "bits": bits, "samples": data})
         return True
+    if hdr["ftype"] in (0, 8):
+        # a 1-byte dtype returns the stored mu-law codes themselves (both zeros, 0x7F and 0xFF, are distinct codes)
+        codes = np.array(data, dtype=np.int64).T.astype(np.uint8)
+        codes = codes.reshape(-1) if hdr["nchan"] == 1 else codes
+        run.evaluations += 1
+        try:
+            with warnings.catch_warnings():
+                warnings.simplefilter("ignore")
+                raw = util.read_signal(io.BytesIO(blob), force_as="sph", dtype=np.uint8)
+        except Exception as e:
+            run.violation({"kind": "shorten_decode_raised", "hdr": hdr, "commands": beh["note"], "error": repr(e), "dtype_arg": "uint8"})
+            return True
+        if raw.shape != codes.shape or raw.dtype != np.uint8 or not np.array_equal(raw, codes):
+            run.violation({"kind": "shorten_raw_codes_differ_from_encoded", "hdr": hdr, "commands": beh["note"],
+                           "first_diff": int(np.argwhere(raw.reshape(-1) != codes.reshape(-1))[0][0]) if raw.shape == codes.shape else None,
+                           "got": raw.reshape(-1)[:8].tolist(), "encoded": codes.reshape(-1)[:8].tolist()})
+            return True
     # a stream that ends early: whole 32-bit words are cut so that a needed bit is missing
     nwords = (len(bits) + 31) // 32
     cuts = sorted({0, nwords - 1, rng.randrange(nwords)} - {nwords})
